@@ -54,10 +54,20 @@ package keeper
 //@        !isnil(slashInfo.SlashProportion) && 0 <= val(slashInfo.SlashProportion) && val(slashInfo.SlashProportion) <= P18 &&
 //@        slashInfo.EventHeight <= slashInfo.SubmittedHeight
 
-// SlashAssets is not yet verified against a functional contract: only its frame is used (it runs on the cache context).
+// SlashAssets: the fraction applied to every pool and undelegation is min(1, power * factor / current USD value of
+// the operator incl. unbonding stake) - this is the value the two callbacks capture as newSlashProportion. The two iterations are
+// used through their callback contracts (above/below); the frame is what callers (Slash, on a cache context) rely on.
+//@ define saValue()  = val(res_CalculateUSDValueForOperator_0.StakingAndWaitUnbonding)
+//@ define saWanted(parameter) = dec_quo(dec_mul(old(parameter.Power) * P18, old(val(parameter.SlashProportion))), saValue())
 //@ func (*Keeper).SlashAssets
-//@   flag assumed
+//@   requires parameter != nil && !isnil(parameter.SlashProportion) && val(parameter.SlashProportion) >= 0 && val(parameter.SlashProportion) <= P18
+//@   requires parameter.Power >= 0 && parameter.SlashEventHeight >= 0
+//@   flag havoc=IterateAssetsForOperator,IterateUndelegationsByOperator
+//@   flag frame_assumed
 //@   modifies store(ctx, "assets"), store(ctx, "delegation")
+//@   nopanic[C04.sa.nopanic]
+//@   ensures[C04.sa.fraction] err == nil ==> !isnil(res_LegacyMinDec_0) && val(res_LegacyMinDec_0) == imin(P18, saWanted(parameter))
+//@   ensures[C04.sa.bounds]   err == nil && saValue() > 0 ==> 0 <= val(res_LegacyMinDec_0) && val(res_LegacyMinDec_0) <= P18
 
 // Slash: a reported failure leaves no trace, and a slash id is executed at most once.
 // per pending undelegation visited: the reduction computed by SlashFromUndelegation (under contract above) is
